@@ -16,6 +16,7 @@ package io
 import (
 	"fmt"
 	"reflect"
+	"strconv"
 	"strings"
 	"sync"
 
@@ -167,6 +168,13 @@ func (dec *Decoder) ReadStruct(t reflect.Type) {
 }
 
 func (dec *Decoder) getStructInfo(index int) structInfo {
+	if index < 0 || index >= len(dec.ref) {
+		// an object of a class that was never defined: malformed stream
+		if dec.Error == nil {
+			dec.Error = DecodeError("hprose/io: invalid class index " + strconv.Itoa(index))
+		}
+		return structInfo{}
+	}
 	return dec.ref[index]
 }
 
